@@ -215,3 +215,21 @@ Section P2StartFacts.
     cbn [p2w p2f p2P p2_feasible]. repeat split; [apply clip_modes_length|]. intros k d Hk. now rewrite clip_modes_nth.
   Qed.
 End P2StartFacts.
+
+(* ---- parafac2 start state by kind of initialisation *)
+Section P2KindFacts.
+  Context {F : Type} (one : F).
+  Theorem p2_start_kind_user qr rank clip proj nn (init : p2init F) :
+    p2_start_kind one qr rank clip proj UserInit nn init = p2_init one qr rank init.
+  Proof. unfold p2_start_kind. destruct (p2_init one qr rank init); [|reflexivity]. destruct nn; reflexivity. Qed.
+  Theorem p2_start_kind_no_nn qr rank clip proj kind (init : p2init F) :
+    p2_start_kind one qr rank clip proj kind None init = p2_init one qr rank init.
+  Proof. unfold p2_start_kind. destruct (p2_init one qr rank init); reflexivity. Qed.
+  Theorem p2_start_kind_random qr rank clip proj ms (init : p2init F) :
+    p2_start_kind one qr rank clip proj BuiltinRandom (Some ms) init = p2_start one qr rank clip true (Some ms) init.
+  Proof. unfold p2_start_kind, p2_start. destruct (p2_init one qr rank init); reflexivity. Qed.
+  Theorem p2_start_kind_svd qr rank clip proj ms (init : p2init F) s :
+    p2_start_kind one qr rank clip proj BuiltinSvd (Some ms) init = Ok s ->
+    exists s0, p2_init one qr rank init = Ok s0 /\ p2w s = p2w s0 /\ p2f s = clip_modes clip ms 0 (p2f s0) /\ p2P s = proj (p2f s).
+  Proof. unfold p2_start_kind. destruct (p2_init one qr rank init) as [s0|]; [|discriminate]. intros [= <-]. exists s0. repeat split. Qed.
+End P2KindFacts.
